@@ -17,6 +17,7 @@ def run(tier, seed):
     run_hex(rep, "H5xSL batch<=1", universe="H5", values=("S", "L"), prune=True, props=P, batch_len=1, exits=("commit", "abort"), state_cap=8000)
     run_hex(rep, "HSxSL direct", universe="HS", values=("S", "L"), prune=True, props=P, state_cap=8000)
     run_hex(rep, "H7xSL direct", universe="H7", values=("S", "L"), prune=True, props=P, state_cap=8000)
+    run_hex(rep, "HW4 x V32/V55/V56 direct (32-byte values, RLP long-string boundary)", universe="HW4", values=("V32", "V55", "V56"), prune=True, props=P, state_cap=8000)
     run_hex(rep, "H3xSL pairs of consecutive events on ONE live object", universe="H3", values=("S", "L"), prune=True, props=P, batch_len=1,
             exits=("commit", "abort"), pairs=True, state_cap=8000)
     if tier == "thorough":
